@@ -114,13 +114,14 @@ def run_case(rnd, k, variants, n_mut=None, **over):
 
 
 def cases(tier, rnd):
-    out = [{"kind": "static"}, {"kind": "malformed"}]
+    out = []
+    tail = [{"kind": "malformed"}, {"kind": "static"}]  # run cases first: a runtime failure makes the better replay
     hs = lambda: rnd.choice(["1", "random", str(rnd.randrange(2, 2 ** 32 - 1))])
     if tier == "quick":
         out.append(run_case(rnd, 1, [variant("0"), variant("random", cpus=1), variant(hs(), max_time=0.001)]))
         out.append(run_case(rnd, 2, [variant("0", finish=[0, 1]), variant(hs(), start=[1, 0], finish=[1, 0])]))
         out.append(run_case(rnd, 3, [variant("0"), variant(hs(), cpus=2, finish=perm_not_identity(rnd, 3), sleep={"0": [0.5, 0]})]))
-        return out
+        return out + tail
     out.append({"kind": "zero_chains"})
     for i in range(14):
         k = [1, 2, 3, 2, 4, 1, 3][i % 7]
@@ -146,7 +147,7 @@ def cases(tier, rnd):
             over["num_samples_data_point"], over["num_samples_prune_regraph"] = 2, 0
         over["num_iters"] = rnd.randint(15, 60)
         out.append(run_case(rnd, k, vs, n_mut=rnd.randint(3, 8), **over))
-    return out
+    return out + tail
 
 
 # --------------------------------------------------------------------------------- running the CLI
@@ -254,6 +255,11 @@ def compare_traces(a, b, prefix=False):
     return None, roundoff
 
 
+def marker_order(r, prefix):
+    """chain numbers in the order in which the workers wrote their start / finish markers"""
+    return [c for _, c in sorted((m["t"], m["chain"]) for nm, m in r["marks"].items() if nm.startswith(prefix))]
+
+
 def describe(v):
     return {k: v[k] for k in ("hashseed", "cpus", "start", "finish", "sleep", "max_time") if v.get(k) is not None}
 
@@ -315,10 +321,13 @@ def check_run(ctx, case):
                 ctx.stat("barrier_timed_out" if w["timed_out"] else "barrier_honoured")
         fin = r["finished"]
         if k > 1:
-            ctx.stat("completion_identity" if fin == sorted(fin) else "completion_permuted")
-            starts = sorted((m["t"], m["chain"]) for nm, m in r["marks"].items() if nm.startswith("start_"))
-            if [c for _, c in starts] != sorted(c for _, c in starts):
-                ctx.stat("start_permuted")
+            ctx.stat("collected_in_chain_order" if fin == sorted(fin) else "collected_in_permuted_order")
+            mf, ms = marker_order(r, "finish_"), marker_order(r, "start_")
+            ctx.stat("workers_finished_in_chain_order" if mf == sorted(mf) else "workers_finished_in_permuted_order")
+            ctx.stat("workers_started_in_chain_order" if ms == sorted(ms) else "workers_started_in_permuted_order")
+            for want, got, nm in ((v["finish"], mf, "finish"), (v["start"], ms, "start")):
+                if want:
+                    ctx.stat(f"forced_{nm}_order_achieved" if want == got else f"forced_{nm}_order_missed")
             pids = {m["pid"] for nm, m in r["marks"].items() if nm.startswith("start_")}
             ctx.stat("worker_processes_distinct" if len(pids) == k else "worker_processes_shared")
         # --- direct oracle (a): one entry per chain, stored under the number it carries
@@ -401,13 +410,27 @@ def check_run(ctx, case):
             ds = [body[f"c{i}"] for i in range(k)]
             chains_differ = len(set(ds)) == k
             ctx.stat("chains_pairwise_distinct" if chains_differ else "chains_coincide")
+            # --- direct oracle (c): every chain has its own generator.  The sequential reference shows that the trace
+            # depends on the generator (all spawned children give different traces); two chains of one run with the very
+            # same trace are then not independent replicates (e.g. every worker got a copy of the main generator).
+            if chains_differ:
+                for i in full:
+                    dg = {}
+                    for key, _, t, _ in usable[i]["results"]:
+                        dg.setdefault(c18_ref.digest(t), []).append(key)
+                    same = [sorted(v) for v in dg.values() if len(v) > 1]
+                    if same:
+                        ctx.oracle_fail(case, f"chains {same[0]} of one {k}-chain run produced the same trace: they do not have generators of their own",
+                                        site, "chains-identical", {"variant": describe(variants[i]), "identical": same})
+                        break
         ctx.stat(f"trace_len_{len(some)}")
-    permuted = any(usable[i]["finished"] != sorted(usable[i]["finished"]) for i in usable)
+    permuted = any(marker_order(usable[i], "finish_") != sorted(marker_order(usable[i], "finish_")) for i in usable)
     nontrivial = distinct_trees >= 2 and len(full) >= 2 and gens_distinct and (k == 1 or (chains_differ and permuted))
     ctx.done(case, nontrivial=nontrivial,
              sample={"opts": {x: o[x] for x in ("seed", "num_chains", "proposal", "outlier_prob", "num_iters", "num_particles")},
                      "variants": [describe(v) for v in variants],
-                     "completion_orders": [usable[i]["finished"] for i in sorted(usable)],
+                     "collected_orders": [usable[i]["finished"] for i in sorted(usable)],
+                     "worker_finish_orders": [marker_order(usable[i], "finish_") for i in sorted(usable)],
                      "wall_s": [usable[i]["wall"] for i in sorted(usable)], "distinct_trees": distinct_trees})
 
 
